@@ -50,6 +50,7 @@ def run(run_, ctx):
     pc = F.crate("postcard")
     check_sliding(run_, F, pc)
     who_may_call(run_, F, pc)
+    flavor_agnostic(run_, F, pc)
     siblings(run_, F, pc)
     if ctx.tier == "thorough":
         try:
@@ -143,6 +144,37 @@ def who_may_call(run_, F, pc):
             if t["k"] == "call" and t["callee"] and re.search(r"io::(buffered|BufReader|Take|Chain)", t["callee"]["def"]):
                 run_.bad("WR", "%s uses %s" % (summ.fn_key(f), t["callee"]["def"]), "a buffering/adapting wrapper around the reader can over-read", f.where())
     run_.floor("WR", 10)
+
+
+def flavor_agnostic(run_, F, pc):
+    """C11.FA — the generic decoder may consult its source only through the byte-delivering calls; `Flavor::size_hint` differs between
+    the slice source (remaining input) and the readers (remaining scratch), so any other use makes the reader path decide differently
+    from the slice path.  The only admitted callers are the SeqAccess/MapAccess `size_hint` forwarders (advisory to the visitor)."""
+    DELIVER = ("pop", "try_take_n", "try_take_n_temp", "finalize")
+    n_hint = 0
+    for f in pc.fns:
+        if not f.canon.startswith("postcard::de::") or f.canon.startswith("postcard::de::flavors::"):
+            continue
+        for bb in f.blocks:
+            t = bb["term"]
+            if t["k"] != "call" or not t["callee"]:
+                continue
+            c = t["callee"]
+            if (c.get("trait") or "") != "postcard::de::flavors::Flavor":
+                continue
+            if c["name"] == "size_hint":
+                n_hint += 1
+                run_.check(f.name == "size_hint" and (f.impl_trait or "").endswith(("de::SeqAccess", "de::MapAccess")), "FA",
+                           "%s calls Flavor::size_hint" % summ.fn_key(f),
+                           "the generic decoder consults the source's size hint: readers report remaining scratch, the slice source remaining "
+                           "input, so the reader path no longer decides like the slice path", f.where(),
+                           detail="advisory forwarder only")
+            else:
+                run_.check(c["name"] in DELIVER, "FA", "%s calls Flavor::%s" % (summ.fn_key(f), c["name"]),
+                           "the generic decoder uses a source method other than pop/try_take_n/try_take_n_temp/finalize", f.where(),
+                           detail="byte-delivering call")
+    run_.floor("FA", 1)   # vacuity is guarded by the positive example below; the number of byte-delivering calls is a property of the code shape
+    run_.check(n_hint >= 1, "FA", "positive example", "the matcher no longer sees the advisory SeqAccess::size_hint forwarder (rule would pass vacuously)")
 
 
 def siblings(run_, F, pc):
